@@ -991,7 +991,17 @@ fn gen_loco_sim(r: &mut Rng, n: usize) -> LocomotiveSimulation {
     let lo = if is_bel(&loco) { -0.2 * pr } else { 0.0 };
     let pt = gen_power_trace(r, n, lo, 0.35 * pr, false);
     let si = *r.pick(&[Some(1), Some(1), Some(1), Some(3), None]);
-    LocomotiveSimulation::new(loco, pt, si)
+    let sim = LocomotiveSimulation::new(loco, pt, si);
+    // a SECOND LEG now and then: the simulation is built around a unit that has already been run elsewhere, so the
+    // unit's own step counter is ahead of the simulation's trace index from the very first row
+    if r.chance(0.3) {
+        let mut leg1 = sim.clone();
+        if guard(|| leg1.walk()).map(|x| x.is_ok()) == Some(true) {
+            let pt2 = gen_power_trace(r, n, lo, 0.35 * pr, false);
+            return LocomotiveSimulation::new(leg1.loco_unit.clone(), pt2, si);
+        }
+    }
+    sim
 }
 
 fn gen_consist_any(r: &mut Rng) -> Consist {
